@@ -13,7 +13,8 @@
   probability when ``cf_provider`` is given, otherwise :class:`MultiWorld` is raised.
 * ``QFactor`` is an opaque positive function supplied by ``q_provider``.
 * reading rule for counterfactual answers (``reading`` dict): an unbound ``star=None`` variable named N takes
-  ``reading[N]``; marked variables (``-N``/``+N``) read the base environment.
+  ``reading[N]``; marked variables (``-N``/``+N``) read the base environment.  A key ``(N, frozenset((name, plus)))``
+  gives the value of one specific counterfactual version of N (used when the answer's event lists N in two worlds).
 
 A name that is neither bound nor in the environment/reading raises :class:`FreeVariable`.
 """
@@ -47,6 +48,13 @@ class MultiWorld(Exception):
 
 class Undefined(Exception):
     """Division by zero / conditioning on a null event inside the expression."""
+
+
+class AmbiguousReading(Exception):
+    """An unbound name that the returned event lists at two values occurs in a form the event does not list."""
+
+
+AMBIGUOUS = object()
 
 
 def interventions_of(v):
@@ -133,8 +141,16 @@ class Evaluator:
 
     def val(self, var, env, bound):
         name = var.name
-        if name not in bound and var.star is None and self.reading is not None and name in self.reading:
-            return self.reading[name]
+        if name not in bound and var.star is None and self.reading is not None:
+            # a returned event may list one name in several counterfactual versions, each with its own value
+            k2 = (name, frozenset((i.name, bool(i.star)) for i in interventions_of(var)))
+            if k2 in self.reading:
+                return self.reading[k2]
+            if name in self.reading:
+                r = self.reading[name]
+                if r is AMBIGUOUS:
+                    raise AmbiguousReading(name)
+                return r
         try:
             b = env[name]
         except KeyError:
